@@ -16,6 +16,8 @@ import (
 var c04Sinks = []string{"lock", "lock", "open", "openfile", "open2", "combine", "bws", "bws", "bwslock", "bwsopen"}
 var c04Encs = []string{"json", "json", "console", "json2"}
 var c04Fes = []string{"plain", "plain", "log", "check", "sugarw", "sugarf", "sugarln", "std", "grpc", "zapio", "zapiosync", "slog", "corewrite"}
+var c04Flavours = []string{"with", "withlazy", "withlazycap", "sugarlazy", "sugarwith", "named", "withopts", "roundtrip"}
+var c04Tmpls = []string{"", "with", "lazy", "sugarlazy", "lazylazy"}
 var c04BufSizes = []int{64, 128, 256, 512, 1024, 0}
 
 // levels a front end can express (zap levels; 3 = DPanic, which only logs outside development mode)
@@ -69,8 +71,10 @@ func c04GenAct(r *Rand, cfg *c04Cfg, big bool) c04Act {
 			a.Sz = 1500
 		}
 		return a
-	case x < 77:
+	case x < 75:
 		return c04Act{A: "with"}
+	case x < 77:
+		return c04Act{A: "derive", Fe: Pick(r, c04Flavours), Child: r.Intn(3) - 1}
 	case x < 81:
 		return c04Act{A: "child", Child: r.Intn(4) - 1}
 	case x < 86:
@@ -86,6 +90,9 @@ func c04GenAct(r *Rand, cfg *c04Cfg, big bool) c04Act {
 func c04GenCfg(r *Rand) c04Cfg {
 	cfg := c04Cfg{Br: []c04Branch{}, Children: r.Intn(4), Named: r.Chance(1, 4), Caller: r.Chance(1, 4),
 		Gomax: Pick(r, []int{1, 2, 4, 8, 16}), Gosched: r.Intn(4), Sampler: r.Chance(1, 8), SafeRec: r.Chance(1, 3), SyncErr: r.Chance(1, 4)}
+	if r.Chance(1, 2) {
+		cfg.Tmpl = Pick(r, c04Tmpls)
+	}
 	nb := 1 + r.Intn(3)
 	for i := 0; i < nb; i++ {
 		cfg.Br = append(cfg.Br, c04Branch{Sink: Pick(r, c04Sinks), Size: Pick(r, c04BufSizes), Enc: Pick(r, c04Encs),
@@ -117,6 +124,9 @@ func c04GenProg(r *Rand, maxActs int, hostile bool) c04Prog {
 			na = maxActs + r.Intn(3*maxActs+1)
 		}
 		op.Gs[gi] = make([]c04Act, 0, na)
+		if !hostile && r.Chance(1, 3) {
+			op.Gs[gi] = append(op.Gs[gi], c04Act{A: "derive", Fe: Pick(r, c04Flavours), Child: 1})
+		}
 		for k := 0; k < na; k++ {
 			a := c04GenAct(r, &cfg, hostile && r.Chance(1, 3))
 			if hostile && r.Chance(1, 2) {
@@ -173,6 +183,29 @@ func c04Gen(r *Rand, tier string, emit func(op any)) {
 						op.Gs[gi] = append(op.Gs[gi], c04Act{A: "tick"})
 					}
 				}
+			}
+			emit(op)
+		}
+	}
+	// grid 3: goroutine-local children in every derivation flavour, derived concurrently from ONE shared template that
+	// is never logged through (base, With, WithLazy with spare capacity, Sugar().WithLazy, lazy-on-lazy); siblings are
+	// derived again between entries, and derived further from the goroutine's own child
+	for ti, tmpl := range c04Tmpls {
+		for fi, fl := range c04Flavours {
+			g := []int{2, 4, 8}[(ti+fi)%3]
+			cfg := c04Cfg{Br: []c04Branch{{Sink: "lock", Enc: "json", Min: -1}, {Sink: Pick(r, []string{"bws", "combine", "lock"}), Size: 256, Enc: Pick(r, []string{"console", "json2"}), Min: -1}},
+				Gomax: 8, Gosched: 1 + (ti+fi)%3, SafeRec: (ti+fi)%2 == 0, Tmpl: tmpl}
+			op := c04Prog{K: "prog", Cfg: cfg, Gs: make([][]c04Act, g)}
+			for gi := range op.Gs {
+				acts := []c04Act{{A: "derive", Fe: fl, Child: 1}}
+				for k := 0; k < 4; k++ {
+					acts = append(acts, c04Act{A: "log", Fe: Pick(r, []string{"plain", "sugarw", "check", "slog", "corewrite"}), Lvl: k % 3, Sz: 5 * k})
+				}
+				acts = append(acts, c04Act{A: "derive", Fe: c04Flavours[(fi+gi+1)%len(c04Flavours)], Child: 1})
+				acts = append(acts, c04Act{A: "log", Fe: "plain", Lvl: 0, Sz: 3}, c04Act{A: "log", Fe: "sugarw", Lvl: 1, Sz: 9})
+				acts = append(acts, c04Act{A: "derive", Fe: fl, Child: 0})
+				acts = append(acts, c04Act{A: "log", Fe: "log", Lvl: 2, Sz: 1}, c04Act{A: "log", Fe: "std", Lvl: 0, Sz: 2})
+				op.Gs[gi] = acts
 			}
 			emit(op)
 		}
